@@ -1,6 +1,8 @@
 SPECIFICATION Spec
 CONSTANTS CancelOnExit = FALSE
  FiredTimerCleared = TRUE
+ RestoreTimerFirst = TRUE
+ StartMode = "fresh"
  MaxNow = 3
  MaxLevel = 9
  MinStop = 0
